@@ -165,6 +165,12 @@ def run(ck):
         if ordered:
             depth = max(depth, 2)
         t = C.gen_tree(ck.rng, depth=depth)
+        for _try in range(60 if ordered else 0):
+            lv1 = [k for k in t.nodes if k[0] == 1]
+            lv2 = [k for k in t.nodes if k[0] == 2]
+            if len(t.nodes[(0, 0, 0, 0)]) and lv1 and lv2 and all(len(t.nodes[k]) for k in lv1) and any(len(t.nodes[k]) for k in lv2):
+                break
+            t = C.gen_tree(ck.rng, depth=depth, p_child=0.5)
         C.assign_pages(ck.rng, t, p_owner=0.9 if ordered else ck.rng.choice([0.0, 0.3, 0.6]))
         malform = None
         if ti % 5 == 4:
@@ -205,7 +211,7 @@ def run(ck):
             # pages must not depend on that (every later query on it is compared with a fresh reader's answer)
             ck.count("shared_reader_primed_with_a_coarse_query")
             guarded(lambda: shared.query(level=max(0, depth - 1)) if ti % 4 == 0 else shared.query(resolution=t.spacing / 2.0 ** max(0, depth - 2)))
-        nq = 6 if q else 10
+        nq = 9 if q else 14
         for qi in range(nq):
             mode = ck.rng.choice(["all", "level", "box", "box", "both", "res", "resbox"]) if qi else "all"
             level = rand_level(ck.rng, depth) if mode in ("level", "both") else None
@@ -220,6 +226,51 @@ def run(ck):
                 level = None
             if qi == 1:
                 mode = "res"        # on every tree: a resolution that is exactly the spacing of one of its levels
+            if qi in (6, 7):
+                # on every tree: level ranges with a step (skipped levels must stay out) and ranges that select nothing
+                mode = "level" if qi == 6 or ti % 2 else "both"
+                forms = [range(0, depth + 2, 2), range(1, depth + 2, 2), range(depth, -1, -2), range(0, depth + 1, 3)] if qi == 6 else \
+                        [range(1, 1), range(0, 0), range(depth, depth - 1), range(depth + 1, 0, -2)]
+                level = forms[ti % 4]
+                box = rand_box(ck.rng, t) if mode == "both" else None
+            if qi == 0 and ti % 2 == 1:
+                # on every other tree the first query ("everything") is asked with a box without bounds: infinite on all faces, on the upper faces only
+                # (3-D), or in 2-D - every stored point is inside
+                inf_ = float("inf")
+                kind_ = ["inf_3d", "upper_faces_inf", "inf_2d", "astronomic"][(ti // 2) % 4]
+                if kind_ == "inf_3d":
+                    box = (kind_, [-inf_] * 3, [inf_] * 3)
+                elif kind_ == "upper_faces_inf":
+                    box = (kind_, [(t.root_grid[i] - 1) * t.scale + t.offsets[i] for i in range(3)], [inf_] * 3)
+                elif kind_ == "inf_2d":
+                    box = (kind_, [-inf_] * 2, [inf_] * 2)
+                else:
+                    box = (kind_, [-1e300] * 3, [1e300] * 3)
+                mode = "box"
+            if qi in (4, 5) and nq > 5:
+                # on every tree: (4) a box one of whose faces lies three quarters of a step beyond a stored point (the point is outside by more than half a
+                # step: min face for qi 4 on even trees, max face on odd ones); (5) a box drawn tightly (a quarter step) around a stored point of the
+                # deepest occupied level (only that point's cell, far from the root's origin, overlaps it)
+                deep = [k for k in sorted(t.nodes, key=lambda k_: (-k_[0], k_)) if len(t.nodes[k])]
+                if deep:
+                    kk = deep[0] if qi == 5 else deep[len(deep) // 2]
+                    pt = t.nodes[kk][0]
+                    g = [int(pt["X"]), int(pt["Y"]), int(pt["Z"])]
+                    mode = "box"
+                    level = None
+                    if qi == 5:
+                        lo_ = [(g[i] - 0.25) * t.scale + t.offsets[i] for i in range(3)]
+                        hi_ = [(g[i] + 0.25) * t.scale + t.offsets[i] for i in range(3)]
+                        box = ("tight_around_deep_point", lo_, hi_)
+                    else:
+                        lo_ = [(t.root_grid[i] - 1) * t.scale + t.offsets[i] for i in range(3)]
+                        hi_ = [(t.root_grid[i] + t.G + 1) * t.scale + t.offsets[i] for i in range(3)]
+                        ax_ = ti % 3
+                        if ti % 2 == 0:
+                            lo_[ax_] = (g[ax_] + 0.75) * t.scale + t.offsets[ax_]
+                        else:
+                            hi_[ax_] = (g[ax_] - 0.75) * t.scale + t.offsets[ax_]
+                        box = ("face_three_quarters_beyond_a_point", lo_, hi_)
             if qi == 3:
                 mode = "res"        # on every tree: a resolution coarser than the root level's spacing (levels 0..0: the root node's points)
             if mode in ("res", "resbox"):
